@@ -278,7 +278,7 @@ def format_runs(ctx, sut, fpm, injector):
             "123e4567-e89b-12d3-a456-426614174000", "5 PM", "tomorrow", "2001-01-01t00:00:00.123z", "1 2 3 UVW"]
     element = sut.Element(properties={"when": sut.Property(sut.String(format="date-time")),
                                       "id": sut.Property(sut.String(format="uuid"))})
-    for _ in range(2):
+    for run_no in range(6):
         nthreads = rng.choice([4, 8])
         lists = [[{"when": rng.choice(pool), "id": rng.choice(pool)} for _ in range(12)] for _ in range(nthreads)]
         import warnings  # pylint: disable=import-outside-toplevel
@@ -286,7 +286,7 @@ def format_runs(ctx, sut, fpm, injector):
         with warnings.catch_warnings():
             warnings.simplefilter("ignore")
             base = [sequential(sut, fpm, element, lst) for lst in lists]
-            records, errors, stuck = concurrent(sut, fpm, element, lists, injector, 0.05)
+            records, errors, stuck = concurrent(sut, fpm, element, lists, injector, [0.05, 0.3, 0.15][run_no % 3])
             again = [sequential(sut, fpm, element, lst) for lst in lists]
         if stuck or errors:
             ctx.inconclusive_reason("format run: threads stuck or harness error " + str(errors[:1]))
